@@ -55,26 +55,44 @@ func name(i, n int) string {
 func text(s script, n int, variant int) (string, []int) {
 	switch s.K {
 	case kUnparsable:
-		return "x = = 1", nil
+		return []string{"x = = 1", "a[", "y = 1\nz = \"unterminated", "if x { use(\"s0.p\") "}[variant%4], nil
 	case kCheckFail:
-		return "y = 2\nnosuch()", nil
+		// failures at different depths of the expression tree: the script's own error has 1, 2, 3, 4 positions
+		return []string{"y = 2\nnosuch()", "y = 2\nx = len(nosuch())", "x = len(len(nosuch()))", "if true {\n  z = [1, {\"k\": len(len(len(nosuch2())))}]\n}", "for i in [1] { add_key() }", "x = pval(pval(pval(pval(pval(nosuch()))))))"[:40] + ")"}[variant%6], nil
 	}
 	var b strings.Builder
 	var offs []int
 	b.WriteString("x = 1")
 	for i, c := range s.Calls {
-		switch (variant + i) % 3 {
+		v := (variant + i) % 7
+		switch v {
 		case 0:
 			b.WriteString("; ")
 		case 1:
 			b.WriteString("\n")
-		default:
+		case 2:
 			b.WriteString("\n  # é\n  if x == 1 { ")
+		case 3:
+			// in a loop body, after a conditional continue
+			b.WriteString("\nfor i = 0; i < 1; i = i + 1 {\n  if x == 2 { continue }\n  ")
+		case 4:
+			// in a for-in body, after a conditional break
+			b.WriteString("\nfor e in [1] {\n  if x == 2 { break }\n  y = e\n  ")
+		case 5:
+			// in the else branch of an if nested in a loop that also breaks
+			b.WriteString("\nfor ;; {\n  if x == 2 { continue } elif x == 3 { break } else {\n    ")
+		default:
+			b.WriteString("\nif false { } elif x == 1 {\n  ")
 		}
 		offs = append(offs, b.Len())
 		fmt.Fprintf(&b, "use(%q)", name(c, n))
-		if (variant+i)%3 == 2 {
+		switch v {
+		case 2:
 			b.WriteString(" }")
+		case 3, 4, 6:
+			b.WriteString("\n}")
+		case 5:
+			b.WriteString("\n  }\n  break\n}")
 		}
 	}
 	return b.String(), offs
@@ -268,8 +286,11 @@ func loadAndCheck(t rk.Failer, slot string, cfg config, texts []string, offs [][
 			if chain[0].File != nm {
 				rk.Fail(t, slot, rp, "own error of %s is attributed to %s", nm, chain[0].File)
 			}
-			if len(chain) != 1 {
-				rk.Fail(t, slot, rp, "own error of %s has a chain: %s", nm, fmtChain(chain))
+			// a failure nested inside calls of the script's own text lists the enclosing calls: all in this script
+			for _, q := range chain {
+				if q.File != nm {
+					rk.Fail(t, slot, rp, "own error of %s lists a position in another script: %s", nm, fmtChain(chain))
+				}
 			}
 			continue
 		case "missing":
